@@ -68,7 +68,7 @@ namespace c17
   {
     typedef Geometry::ConformalMesh<Shape_> MeshType; typedef Trafo::Standard::Mapping<MeshType> TrafoType;
     constexpr int dim = Shape_::dimension;
-    MeshSpec ms = gen_mesh<Shape_>(t, o.max_cells);
+    MeshSpec ms = gen_mesh<Shape_>(t, o.max_cells, o.threaded_bias);
     int mesh_perm = choose_perm(t, ms);
     auto mesh = build_mesh<Shape_>(ms);
     apply_perm(*mesh, ms, mesh_perm);
